@@ -168,26 +168,26 @@ Section Laws.
   Variable P : T -> T -> Op.
   Variables actL actR : Op -> St -> St.
   Variable steps : T -> T -> list T.
-  Variable teqb : T -> T -> bool.
+  Variable near : T -> T -> bool.
   Variable skip : bool.
-  Hypothesis L : propagator_laws T Op St tzero tadd tsub oid ocomp U P actL actR teqb.
+  Hypothesis L : propagator_laws T Op St tzero tadd tsub oid ocomp U P actL actR.
 
   Let act' := act Op St actL actR.
   Let prop' := prop T Op tsub U P.
-  Let update' := update_to T Op St tsub U P actL actR steps teqb skip.
-  Let run' := run T Op St tsub U P actL actR steps teqb skip.
+  Let update' := update_to T Op St tsub U P actL actR steps near skip.
+  Let run' := run T Op St tsub U P actL actR steps near skip.
   Let integ' := integ T Op St tsub U P actL actR.
   Let st' := st T St.
 
   Lemma act_id : forall two x, act' two oid x = x.
   Proof.
-    destruct L as [_ _ _ _ _ _ _ LLi _ LRi _ _].
+    destruct L as [_ _ _ _ _ _ LLi _ LRi _ _].
     intros [] x; unfold act', act; [rewrite LLi; apply LRi | apply LLi].
   Qed.
 
   Lemma act_comp : forall two u w x, act' two (ocomp u w) x = act' two u (act' two w x).
   Proof.
-    destruct L as [_ _ _ _ _ _ _ _ LLc _ LRc Lcm].
+    destruct L as [_ _ _ _ _ _ _ LLc _ LRc Lcm].
     intros [] u w x; unfold act', act.
     - rewrite LLc, LRc, (Lcm u w). reflexivity.
     - apply LLc.
@@ -195,18 +195,15 @@ Section Laws.
 
   Lemma prop_diag : forall td t, prop' td t t = oid.
   Proof.
-    destruct L as [_ Ltd _ LU0 _ LPd _ _ _ _ _ _].
+    destruct L as [Ltd _ LU0 _ LPd _ _ _ _ _ _].
     intros [] t; unfold prop', prop; [apply LPd | rewrite Ltd; apply LU0].
   Qed.
 
   Lemma prop_chain : forall td a b c, ocomp (prop' td c b) (prop' td b a) = prop' td c a.
   Proof.
-    destruct L as [_ _ Ltc _ LUa _ LPc _ _ _ _ _].
+    destruct L as [_ Ltc _ LUa _ LPc _ _ _ _ _].
     intros [] a b c; unfold prop', prop; [apply LPc | rewrite <- LUa, Ltc; reflexivity].
   Qed.
-
-  Lemma teqb_eq : forall a b, teqb a b = true -> a = b.
-  Proof. destruct L as [Lt _ _ _ _ _ _ _ _ _ _ _]. exact Lt. Qed.
 
   (* what the state at time t must be *)
   Definition target (two td : bool) (t0 : T) (p0 : St) (t : T) : St := act' two (prop' td t t0) p0.
@@ -221,14 +218,20 @@ Section Laws.
   Definition good (two td : bool) (t0 : T) (p0 : St) (tp : T * St) : Prop :=
     snd tp = target two td t0 p0 (fst tp).
 
+  Section Resolved.
+  (* Lt: t0 and all the times that will be requested *)
+  Variable Lt : list T.
+  Hypothesis HLt : resolved T near skip Lt.
+
   Definition Inv (r : routine) (m : method) (q : option eqkind) (two td : bool) (t0 : T) (p0 : St)
              (s : st') : Prop :=
     s_routine _ _ s = r /\ s_method _ _ s = m /\ s_eq _ _ s = q /\ s_t0 _ _ s = t0 /\ s_p0 _ _ s = p0
     /\ (r <> R_integrate -> s_pt _ _ s = target two td t0 p0 (s_t _ _ s))
     /\ (r = R_integrate -> s_sy _ _ s = target two td t0 p0 (s_st _ _ s))
-    /\ Forall (good two td t0 p0) (s_results _ _ s).
+    /\ Forall (good two td t0 p0) (s_results _ _ s)
+    /\ In (s_st _ _ s) Lt.
 
-  Lemma Inv_init : forall r m q two td t0 p0, Inv r m q two td t0 p0 (init T St r m q t0 p0).
+  Lemma Inv_init : forall r m q two td t0 p0, In t0 Lt -> Inv r m q two td t0 p0 (init T St r m q t0 p0).
   Proof.
     intros. unfold Inv, init; cbn. repeat split; auto; intros; symmetry; apply target_t0.
   Qed.
@@ -255,10 +258,10 @@ Section Laws.
   Qed.
 
   Lemma Inv_update : forall r m q two td t0 p0, implements r m q two td ->
-    forall s t, Inv r m q two td t0 p0 s ->
+    forall s t, In t Lt -> Inv r m q two td t0 p0 s ->
       Inv r m q two td t0 p0 (update' s t) /\ get_t T St (update' s t) = t.
   Proof.
-    intros r m q two td t0 p0 I s t (Hr & Hm & Hq & Ht0 & Hp0 & Hd & Hs & Hres).
+    intros r m q two td t0 p0 I s t Hti (Hr & Hm & Hq & Ht0 & Hp0 & Hd & Hs & Hres & Hin).
     unfold update', update_to. rewrite Hr.
     destruct r; cbn in I.
     - (* solved ket *)
@@ -298,9 +301,9 @@ Section Laws.
       + unfold get_t, upd_direct; cbn. rewrite Hm. destruct m; try reflexivity. congruence.
     - (* integrate *)
       destruct I as (Hmi & q' & Hq' & H2 & Htd).
-      destruct (skip && teqb t (s_st T St s)) eqn:K.
+      destruct (skip && near t (s_st T St s)) eqn:K.
       { (* already at t: nothing is done *)
-        apply andb_prop in K. destruct K as [_ K]. apply teqb_eq in K.
+        apply andb_prop in K. destruct K as [Ks K]. apply (HLt Ks t (s_st T St s) Hti Hin) in K.
         split; [unfold Inv; repeat split; auto|].
         unfold get_t. rewrite Hm, Hmi. symmetry; exact K. }
       rewrite Hq, Hq'.
@@ -318,7 +321,7 @@ Section Laws.
   Lemma Inv_get_pt : forall r m q two td t0 p0, implements r m q two td ->
     forall s, Inv r m q two td t0 p0 s -> get_pt T St s = target two td t0 p0 (get_t T St s).
   Proof.
-    intros r m q two td t0 p0 I s (Hr & Hm & Hq & Ht0 & Hp0 & Hd & Hs & Hres).
+    intros r m q two td t0 p0 I s (Hr & Hm & Hq & Ht0 & Hp0 & Hd & Hs & Hres & Hin).
     unfold get_pt, get_t. rewrite Hm.
     destruct r; cbn in I.
     1-4: destruct I as (Hmi & _); destruct m; try congruence; apply Hd; discriminate.
@@ -326,45 +329,47 @@ Section Laws.
   Qed.
 
   Lemma Inv_run : forall r m q two td t0 p0, implements r m q two td ->
-    forall ts s, Inv r m q two td t0 p0 s ->
+    forall ts s, incl ts Lt -> Inv r m q two td t0 p0 s ->
       Inv r m q two td t0 p0 (run' s ts) /\ get_t T St (run' s ts) = last ts (get_t T St s).
   Proof.
     intros r m q two td t0 p0 I.
-    induction ts as [|t ts IH]; intros s Hs.
+    induction ts as [|t ts IH]; intros s Hi Hs.
     - cbn. auto.
-    - destruct (Inv_update r m q two td t0 p0 I s t Hs) as (Hs' & Hc).
-      destruct (IH _ Hs') as (A & B).
+    - destruct (Inv_update r m q two td t0 p0 I s t (Hi t (or_introl eq_refl)) Hs) as (Hs' & Hc).
+      destruct (IH _ (fun x Hx => Hi x (or_intror Hx)) Hs') as (A & B).
       change (run' s (t :: ts)) with (run' (update' s t) ts).
       split; [exact A|]. rewrite B, Hc. symmetry. apply last_cons.
   Qed.
 
   Lemma run_sound : forall r m q two td t0 p0, implements r m q two td ->
-    forall ts, let s := run' (init T St r m q t0 p0) ts in
+    forall ts, In t0 Lt -> incl ts Lt -> let s := run' (init T St r m q t0 p0) ts in
       get_pt T St s = target two td t0 p0 (last ts t0) /\ get_t T St s = last ts t0
       /\ Forall (good two td t0 p0) (s_results T St s).
   Proof.
-    intros r m q two td t0 p0 I ts s.
-    destruct (Inv_run r m q two td t0 p0 I ts _ (Inv_init r m q two td t0 p0)) as (A & B). fold s in A, B.
+    intros r m q two td t0 p0 I ts H0 Hi s.
+    destruct (Inv_run r m q two td t0 p0 I ts _ Hi (Inv_init r m q two td t0 p0 H0)) as (A & B). fold s in A, B.
     assert (G0 : get_t T St (init T St r m q t0 p0) = t0) by (unfold get_t, init; cbn; destruct m; reflexivity).
     rewrite G0 in B. repeat split.
     - rewrite (Inv_get_pt r m q two td t0 p0 I s A), B. reflexivity.
     - exact B.
-    - destruct A as (_ & _ & _ & _ & _ & _ & _ & R). exact R.
+    - destruct A as (_ & _ & _ & _ & _ & _ & _ & R & _). exact R.
   Qed.
 
   Lemma at_times_inv : forall r m q two td t0 p0, implements r m q two td ->
-    forall ts s, Inv r m q two td t0 p0 s ->
-      Forall2 (fun t p => p = target two td t0 p0 t) ts (at_times T Op St tsub U P actL actR steps teqb skip s ts)
-      /\ clocks T Op St tsub U P actL actR steps teqb skip s ts = ts.
+    forall ts s, incl ts Lt -> Inv r m q two td t0 p0 s ->
+      Forall2 (fun t p => p = target two td t0 p0 t) ts (at_times T Op St tsub U P actL actR steps near skip s ts)
+      /\ clocks T Op St tsub U P actL actR steps near skip s ts = ts.
   Proof.
     intros r m q two td t0 p0 I.
-    induction ts as [|t ts IH]; intros s Hs; cbn.
+    induction ts as [|t ts IH]; intros s Hi Hs; cbn.
     - split; [constructor|reflexivity].
-    - destruct (Inv_update r m q two td t0 p0 I s t Hs) as (Hs' & Hc). unfold update' in Hs', Hc.
-      destruct (IH _ Hs') as (A & B). split.
+    - destruct (Inv_update r m q two td t0 p0 I s t (Hi t (or_introl eq_refl)) Hs) as (Hs' & Hc). unfold update' in Hs', Hc.
+      destruct (IH _ (fun x Hx => Hi x (or_intror Hx)) Hs') as (A & B). split.
       + constructor; [|exact A]. rewrite (Inv_get_pt r m q two td t0 p0 I _ Hs'). rewrite Hc. reflexivity.
       + rewrite Hc, B. reflexivity.
   Qed.
+
+  End Resolved.
 
   (* for the direct routines the callback is called exactly once per requested time *)
   Lemma direct_cb_times : forall r, r <> R_integrate -> forall ts s, s_routine T St s = r ->
@@ -423,7 +428,7 @@ Section Laws.
     destruct (s_routine T St s) eqn:R; cbn;
       try (rewrite R; split; [|reflexivity]; repeat split; auto;
            unfold replay_trace in *; rewrite fold_left_app; cbn; rewrite ?Hr, ?Hp; reflexivity).
-    destruct (skip && teqb t (s_st T St s)) eqn:K.
+    destruct (skip && near t (s_st T St s)) eqn:K.
     { split; [|exact R]. repeat split; auto. rewrite R. exact Hr. }
     destruct (s_eq T St s) as [q'|] eqn:Q.
     - pose proof (integ_total q' (steps (s_st T St s) t ++ [t]) (s_st T St s) (s_sy T St s) (s_results T St s)) as X.
@@ -449,27 +454,32 @@ Section Laws.
 
   (* ---- the statements exported to Props.v ---- *)
 
+  Lemma resolved_incl : forall t0 (ts : list T), incl ts (t0 :: ts).
+  Proof. intros t0 ts x Hx. right. exact Hx. Qed.
+
   Theorem evolution_sound : forall v c r m q,
     construct v c = Accepted r m q -> unsound_cell v c = false ->
-    forall t0 p0 ts, let s := run' (init T St r m q t0 p0) ts in
+    forall t0 p0 ts, resolved T near skip (t0 :: ts) ->
+    let s := run' (init T St r m q t0 p0) ts in
       get_pt T St s = spec_state T Op St tsub U P actL actR c t0 p0 (last ts t0)
       /\ get_t T St s = last ts t0.
   Proof.
-    intros v c r m q H Hu t0 p0 ts s.
+    intros v c r m q H Hu t0 p0 ts HR s.
     pose proof (construct_implements v c r m q H Hu) as I.
-    destruct (run_sound r m q _ _ t0 p0 I ts) as (A & B & _).
+    destruct (run_sound (t0 :: ts) HR r m q _ _ t0 p0 I ts (or_introl eq_refl) (resolved_incl t0 ts)) as (A & B & _).
     split; [exact A|exact B].
   Qed.
 
   Theorem callbacks_sound : forall v c r m q,
     construct v c = Accepted r m q -> unsound_cell v c = false ->
-    forall t0 p0 ts, let s := run' (init T St r m q t0 p0) ts in
+    forall t0 p0 ts, resolved T near skip (t0 :: ts) ->
+    let s := run' (init T St r m q t0 p0) ts in
       Forall (fun tp => snd tp = spec_state T Op St tsub U P actL actR c t0 p0 (fst tp)) (s_results T St s)
       /\ (r <> R_integrate -> rev (map fst (s_results T St s)) = ts).
   Proof.
-    intros v c r m q H Hu t0 p0 ts s.
+    intros v c r m q H Hu t0 p0 ts HR s.
     pose proof (construct_implements v c r m q H Hu) as I.
-    destruct (run_sound r m q _ _ t0 p0 I ts) as (_ & _ & C).
+    destruct (run_sound (t0 :: ts) HR r m q _ _ t0 p0 I ts (or_introl eq_refl) (resolved_incl t0 ts)) as (_ & _ & C).
     split; [exact C|].
     intros Hne. destruct (direct_cb_times r Hne ts (init T St r m q t0 p0) eq_refl) as (A & _).
     fold s in A. rewrite A. cbn. rewrite app_nil_r. apply rev_involutive.
@@ -477,23 +487,25 @@ Section Laws.
 
   Theorem at_times_sound : forall v c r m q,
     construct v c = Accepted r m q -> unsound_cell v c = false ->
-    forall t0 p0 ts,
+    forall t0 p0 ts, resolved T near skip (t0 :: ts) ->
       Forall2 (fun t p => p = spec_state T Op St tsub U P actL actR c t0 p0 t) ts
-              (at_times T Op St tsub U P actL actR steps teqb skip (init T St r m q t0 p0) ts)
-      /\ clocks T Op St tsub U P actL actR steps teqb skip (init T St r m q t0 p0) ts = ts.
+              (at_times T Op St tsub U P actL actR steps near skip (init T St r m q t0 p0) ts)
+      /\ clocks T Op St tsub U P actL actR steps near skip (init T St r m q t0 p0) ts = ts.
   Proof.
-    intros v c r m q H Hu t0 p0 ts.
+    intros v c r m q H Hu t0 p0 ts HR.
     pose proof (construct_implements v c r m q H Hu) as I.
-    exact (at_times_inv r m q _ _ t0 p0 I ts _ (Inv_init r m q _ _ t0 p0)).
+    exact (at_times_inv (t0 :: ts) HR r m q _ _ t0 p0 I ts _ (resolved_incl t0 ts)
+                        (Inv_init (t0 :: ts) r m q _ _ t0 p0 (or_introl eq_refl))).
   Qed.
 
   Theorem conserved : forall v c r m q,
     construct v c = Accepted r m q -> unsound_cell v c = false ->
     forall (V : Type) (f : St -> V), (forall u x, f (act' (c_isdop c) u x) = f x) ->
-    forall t0 p0 ts, f (get_pt T St (run' (init T St r m q t0 p0) ts)) = f p0.
+    forall t0 p0 ts, resolved T near skip (t0 :: ts) ->
+      f (get_pt T St (run' (init T St r m q t0 p0) ts)) = f p0.
   Proof.
-    intros v c r m q H Hu V f Hf t0 p0 ts.
-    destruct (evolution_sound v c r m q H Hu t0 p0 ts) as (A & _). cbn in A.
+    intros v c r m q H Hu V f Hf t0 p0 ts HR.
+    destruct (evolution_sound v c r m q H Hu t0 p0 ts HR) as (A & _). cbn in A.
     rewrite A. unfold spec_state. apply Hf.
   Qed.
 End Laws.
@@ -502,11 +514,23 @@ End Laws.
 (* The integer instance satisfies the contract (so the Section is not
    vacuous), and exhibits the failures of today's code.                      *)
 
-Lemma ZI_laws : propagator_laws Z Z (Z * Z) 0%Z Z.add ZI.tsub 0%Z Z.add ZI.U ZI.P ZI.actL ZI.actR ZI.teqb.
+Lemma ZI_laws : propagator_laws Z Z (Z * Z) 0%Z Z.add ZI.tsub 0%Z Z.add ZI.U ZI.P ZI.actL ZI.actR.
 Proof.
-  constructor; unfold ZI.tsub, ZI.U, ZI.P, ZI.actL, ZI.actR, ZI.teqb; intros;
-    try (apply Z.eqb_eq; assumption);
+  constructor; unfold ZI.tsub, ZI.U, ZI.P, ZI.actL, ZI.actR; intros;
     try destruct x as [a0 b0]; cbn [fst snd]; try (f_equal; lia); lia.
+Qed.
+
+(* the coded skip test distinguishes all (scaled dyadic) times below 2^50 units:
+   every list of such times is resolved *)
+Lemma ZI_near_exact : forall a b, (Z.abs a < 2 ^ 50)%Z -> (Z.abs b < 2 ^ 50)%Z -> ZI.near a b = true -> a = b.
+Proof.
+  intros a b Ha Hb H. unfold ZI.near in H. apply Z.leb_le in H.
+  assert (E : (2 ^ 50 = 1125899906842624)%Z) by reflexivity. rewrite E in *. lia.
+Qed.
+
+Lemma ZI_resolved : forall skip l, Forall (fun t => (Z.abs t < 2 ^ 50)%Z) l -> resolved Z ZI.near skip l.
+Proof.
+  intros skip l Hl _ a b Ha Hb. rewrite Forall_forall in Hl. apply ZI_near_exact; auto.
 Qed.
 
 Definition c_expm_dop : config := mk_config M_expm true H_dense false false.
